@@ -20,6 +20,11 @@ package rbc
 //@   ghost tAckSent map[msgReception]int
 //@   ghost tDeliver map[senderAndRound]int
 //@   ghost tHalt    int
+//@   field SelfID, N, ForwardToBackend, BroadcastAck, Logger config
+//@   // a Receiver is not thread safe by itself: the orchestrator wraps every instance in threadSafeRBC (Scheme.setup), whose
+//@   // lock serialises all calls of Receive
+//@   field reception, receivedRoundFromSender, equivocationDetected owned_by the threadSafeRBC wrapper of the session
+//@   field reception[], receivedRoundFromSender[] owned_by the threadSafeRBC wrapper of the session
 //@   invariant [config]   this.Logger != nil && this.ForwardToBackend != nil && this.BroadcastAck != nil
 //@   invariant [members]  this.SelfID in this.P && this.N == card(this.P)
 //@   invariant [maps]     (this.reception == nil) == (this.receivedRoundFromSender == nil)
